@@ -15,6 +15,8 @@ def main(argv):
     d, txjson, seedstr, k = argv[0], argv[1], argv[2], int(argv[3])
     from vf import core
     core.bootstrap()
+    if hasattr(core, "private_tmp"):
+        core.private_tmp()      # RamStorage temp files (add_reader / BufferedWriter) must not collide with other processes
     from vf.tap import Tap
     from vf.props import c02
     tx = json.loads(txjson)
